@@ -103,6 +103,9 @@ inductive Act
   | raise                              -- the handler / callback raises here
   | resolve (wid : Nat)                -- `_future.set_result(kwargs)` of `_wait_handler` (InvalidStateError if done)
   | monitor (on : Bool)                -- `monitor_events = on` (BCP event monitor)
+  | reenter                            -- `process_event_queue()` called by a handler / callback, i.e. from inside the
+                                       -- loop: with the re-entrancy guard nothing happens (the running invocation
+                                       -- picks everything up); the unguarded code nests dispatches - a finding
   deriving DecidableEq, Repr
 
 structure Prog where
@@ -283,6 +286,7 @@ def runAct (c : Core) : Act → Core × List Posted
     if c.resolved.contains wid then ({ c with raised := true }, [])
     else ({ c with resolved := wid :: c.resolved, mlog := c.mlog ++ [(c.log.length, SObs.fut wid)] }, [])
   | .monitor on => ({ c with mon := on }, [])
+  | .reenter => (c, [])
 
 /-- a program runs until an action raises -/
 def runActs (c : Core) : List Act → Core × List Posted
@@ -570,6 +574,7 @@ def parseAct (toks : List String) : Option Act :=
   | ["F", wid] => do pure (.resolve (← wid.toNat?))
   | ["O", "1"] => some (.monitor true)
   | ["O", "0"] => some (.monitor false)
+  | ["Q"] => some .reenter
   | _ => none
 
 /-- acts separated by the token `|` -/
